@@ -72,7 +72,10 @@ class _TextParser(HTMLParser):
     elif tag.lower() == "font":
       for attr in attrs:
         if attr[0] == "color" and attr[1] is not None:
-          color = parse_color(attr[1])
+          try:
+            color = parse_color(attr[1])
+          except ValueError:
+            color = None
           break
       else:
         LOGGER.warning("Font tag without a color attribute at line %s", self.line_num)
